@@ -24,7 +24,8 @@ EXPLANATION = (
     "class name. R11f: the index order read back from that tensor (lower+upper for amplitudes, "
     "upper+lower otherwise) reproduces _default_idx and construction does not permute the defaults. "
     "R11g: reduce_expr bookkeeping (R13g) and ordered substitutions at its sites. R11h: pool clean-up "
-    "of LongItmdVariants visits every entry. R13d/R13h: expansion skeleton incl. fresh contracted indices per factor of a "
+    "of LongItmdVariants visits every entry. R11i: the sign that maps a match's remainder onto the stored remainder is applied to both "
+    "stored prefactors (prefactor and unit factorisation prefactor). R13d/R13h: expansion skeleton incl. fresh contracted indices per factor of a "
     "power; fraction cancellation bookkeeping.")
 ASSUMPTIONS = [
     "the matching logic (_compare_terms, LongItmdVariants, factor_denom, cancel_orb_energy_frac) is a runtime "
@@ -306,9 +307,67 @@ def r11h(ctx):
               "all itmd indices, remainders and positions swept", f"loops {its}", key="sweep loops")
 
 
+def r11i(ctx):
+    """both stored prefactors of a match refer to the stored reference remainder"""
+    rule = "R11i"
+    fn = ctx.model.fn(FI + "LongItmdVariants.add")
+    params = [a.arg for a in fn.args.args]
+    cmp_calls = [c for c in calls_in(fn) if call_name(c) == "_compare_remainder"]
+    ctx.floor(rule, "remainder comparison in LongItmdVariants.add", len(cmp_calls), 1)
+    st = enclosing_stmt(cmp_calls[0])
+    if not (isinstance(st, ast.Assign) and isinstance(st.targets[0], ast.Name)):
+        raise AnalysisError("R11i: result of _compare_remainder is not bound to a name")
+    sign = st.targets[0].id
+    loop = enclosing(st, ast.For)
+    if loop is None:
+        raise AnalysisError("R11i: _compare_remainder is not called in the sweep over stored remainders")
+    # the stored records: tuples (term_i, prefactor, unit prefactor) appended / stored in lists
+    recs = [t for t in walk_fn(fn) if isinstance(t, ast.Tuple) and len(t.elts) == 3 and all(isinstance(x, ast.Name) for x in t.elts)
+            and isinstance(t.ctx, ast.Load) and t.elts[0].id == params[1]]
+    ctx.floor(rule, "stored match records", len(recs), 2)
+    names = {(r.elts[1].id, r.elts[2].id) for r in recs}
+    if len(names) != 1:
+        raise AnalysisError(f"R11i: stored records differ in shape: {names}")
+    pref, unit = names.pop()
+
+    def scalings(name):
+        out = []
+        for n in walk_fn(loop):
+            if isinstance(n, ast.AugAssign) and U(n.target) == name and isinstance(n.op, ast.Mult):
+                out.append(U(n.value))
+            elif isinstance(n, ast.Assign) and U(n.targets[0]) == name and isinstance(n.value, ast.BinOp) and isinstance(n.value.op, ast.Mult):
+                fs = [U(f) for f in c13._flatten(n.value)]
+                if name in fs:
+                    fs.remove(name)
+                    out.extend(fs)
+                else:
+                    out.append("<rebound>")
+            elif isinstance(n, (ast.Assign, ast.AugAssign)) and U(n.targets[0] if isinstance(n, ast.Assign) else n.target) == name:
+                out.append("<rebound>")
+        return sorted(out)
+    sp, su = scalings(pref), scalings(unit)
+    ctx.check(rule, loop, sp == [sign], f"`{pref}` is mapped onto the stored remainder by the sign `{sign}` of _compare_remainder",
+              f"`{pref}` is rescaled by {sp} instead of the sign `{sign}` that maps the remainder onto the stored reference remainder",
+              key="prefactor sign")
+    ctx.check(rule, loop, su == sp, f"`{unit}` receives the same sign: both stored prefactors refer to the stored remainder",
+              f"`{pref}` is rescaled by {sp} but `{unit}` by {su}: the record mixes a prefactor relative to the stored remainder with a unit "
+              "prefactor relative to the unmapped remainder, and _factor_mixed_prefactors completes the term with the wrong sign",
+              key="unit sign")
+    # the new-remainder branch stores the record unscaled against its own remainder
+    newb = [r for r in recs if enclosing(r, ast.For) is not loop]
+    ctx.check(rule, fn, len(newb) >= 1, "a new remainder becomes the reference with the unscaled prefactors", "the new-remainder branch vanished",
+              key="new remainder")
+    cons = ctx.model.fn(FI + "_factor_mixed_prefactors")
+    a = {U(x.targets[0]): U(x.value).replace(" ", "") for x in walk_fn(cons) if isinstance(x, ast.Assign)}
+    ctx.check(rule, cons, any("unit_factors[term_i]" in v for v in a.values()), "consumer: the completion uses the stored unit prefactor",
+              "the consumer of the unit prefactor changed", key="consumer")
+
+
 def run(ctx):
     if ctx.want("R11h"):
         r11h(ctx)
+    if ctx.want("R11i"):
+        r11i(ctx)
     if ctx.want("R13h"):
         c13.r13h(ctx)
     if ctx.want("R13d"):
